@@ -1,5 +1,5 @@
 """C05 -- the problem handed to the solver is exactly the declared model."""
-from . import pepsolve, wrappers, translate, state
+from . import pepsolve, wrappers, translate, state, common
 
 LEVEL = "other"
 EXPLANATION = ("Discovery of the containers that hold the declared model (by the kind of object appended to them) and proof that the solve root "
@@ -28,6 +28,7 @@ def run(ctx):
     wrappers.r_mosekrow(ctx)
     pepsolve.r_objsense(ctx)
     state.r_accum(ctx)
+    common.r_argbind(ctx, {common.solve_root(ctx.repo).name, "generate_problem", "send_constraint_to_solver", "send_lmi_constraint_to_solver", "expression_to_sparse_matrices", "expression_to_matrices"})
     nb = wrappers.r_baridx(ctx)
     ctx.floor("declared-model containers", nc, 8)
     ctx.floor("send sites in the solve root", ns, 8)
